@@ -113,6 +113,7 @@ def setup(run):
         attach.wrap_everywhere(run, getattr(ucore, name), funnel(name, like_arg, 0))
     run.monitor("packaging", min_events=50)
     run.monitor("rescaling", min_events=50)
+    run.monitor("docs", min_events=10)
 
 
 # ---------------------------------------------------------------------------
@@ -570,9 +571,35 @@ def wl_rescaling(run, rng, idx):
                     "P": P0, "lambda_P": lp})
 
 
+def wl_docs(run, rng, idx):
+    """the documentation's python blocks and examples/*.py, run as programs."""
+    from .. import examples
+    mon = run.monitor("docs")
+    progs = examples.programs()
+    if not progs:
+        return mon.skip("no documentation programs found")
+    doc, bl = progs[idx % len(progs)]
+    run.current_case = {"document": doc}
+    for i, status, detail in examples.run_program(doc, bl, shrink=(run.tier == "quick")):
+        if status == "ok":
+            mon.ok()
+            run.note_class("doc", doc, i)
+        elif status == "skipped":
+            mon.skip(detail)
+        else:
+            mon.fail("docs/exception:%s/%s[block %d]" % (detail.split(":")[0], doc, i),
+                     "documentation program %s block %d does not run: %s"
+                     % (doc, i, detail.splitlines()[0]),
+                     case={"document": doc, "block": i, "code": bl[i][:1500]},
+                     tb=detail)
+    if idx < 1:
+        run.sample({"document": doc, "first_block": bl[0][:400]})
+
+
 WORKLOADS = [
     Workload("packaging-scalar", wl_packaging_scalar, quick=12, thorough=300),
     Workload("packaging-matrix", wl_packaging_matrix, quick=12, thorough=300),
     Workload("packaging-coxeter", wl_packaging_coxeter, quick=8, thorough=64),
     Workload("rescaling", wl_rescaling, quick=240, thorough=6000),
+    Workload("docs", wl_docs, quick=12, thorough=12),
 ]
